@@ -363,7 +363,7 @@ def eigenvector_centrality_und(CIJ):
     from scipy import linalg
 
     n = len(CIJ)
-    vals, vecs = linalg.eig(CIJ)
+    vals, vecs = linalg.eig(np.asarray(CIJ, dtype=float))  # double precision whatever the storage (8-bit / bool arrays gave float32)
     i = np.argmax(vals)
     return np.abs(vecs[:, i])
 
@@ -902,7 +902,7 @@ def subgraph_centrality(CIJ):
     '''
     from scipy import linalg
 
-    vals, vecs = linalg.eigh(CIJ)  # compute eigendecomposition
+    vals, vecs = linalg.eigh(np.asarray(CIJ, dtype=float))  # compute eigendecomposition (in double precision whatever the storage)
     # lambdas=np.diag(vals)
     # compute eigenvector centr.
     Cs = np.real(np.dot(vecs * vecs, np.exp(vals)))
